@@ -148,3 +148,36 @@ for _fmt in FORMATS:
         ob("C08", "P1.round2.%s.d%d" % (_fmt, _d), {"t": R(0, len(TYPES) - 1), "i": R(0, 1) , "nonsuffix": BOOL},
            tier="quick" if _d < 4 else "thorough", T=500, tpath=120, funcs=FORMAT_FUNCS[_fmt], assumes=[ADHOC_SHIMS_DOC],
            bound="description %r x types %r x int default 0/1 in suffix or NON-suffix position, return entry; round 2 == round 1 (solver-enumerated)" % (TRIGGER_DOCS[_d], TYPES))(_p1(_fmt, _d))
+
+
+# json_schema: round n+1 == round n for 3 rounds, JSON-representable types incl. Literal members with regex-special characters ------------
+JTYPES = ("int", "str", "Optional[float]", "Literal['np', 'tf']", "Literal['np', 'tf.keras']", "Optional[Literal['mean-squared', 'c++']]", "Literal['top k', 'a']", "bool", "dict")
+
+
+def json_rounds(t, i, withdoc):
+    typ = JTYPES[0]
+    for k in range(1, len(JTYPES)):
+        if t == k:
+            typ = JTYPES[k]
+    a = {"typ": typ, "doc": "first arg"} if withdoc else {"typ": typ}
+    b = {"typ": "int", "doc": "second arg", "default": i}
+    ir0 = {"name": "C", "doc": "Header line.", "type": "static", "params": OrderedDict((("a", a), ("b", b))), "returns": None}
+    try:
+        r1 = hop("json_schema", ir0)
+    except Exception:
+        return ""
+    prev = r1
+    for n in (2, 3):
+        try:
+            nxt = hop("json_schema", prev)
+        except Exception as e:
+            return "round %d raised %s: %s on the output of round %d" % (n, type(e).__name__, e, n - 1)
+        d = ireq(prev, nxt)
+        if d:
+            return "round %d vs %d: %s" % (n - 1, n, d)
+        prev = nxt
+    return ""
+
+
+ob("C08", "P1.rounds.json_schema", {"t": R(0, len(JTYPES) - 1), "i": R(-1, 1), "withdoc": BOOL}, T=400, funcs=FORMAT_FUNCS["json_schema"], assumes=[ADHOC_SHIMS_DOC],
+   bound="json_schema emit->parse three times on types %r (Literal members with '.', '-', '+', space), int default -1..1, description present or not: each round equals the previous" % (JTYPES,))(json_rounds)
